@@ -128,6 +128,7 @@ func (c caseCfg) mainYAML() []byte {
 	var b strings.Builder
 	fmt.Fprintf(&b, "General:\n  ConfigurationVersion: 2\n  DatasetPrefix: %s\n", jq(c.prefix))
 	fmt.Fprintf(&b, "IDFields:\n  TraceNames: %s\n  ParentNames: %s\n", jqList(c.tids), jqList(c.pids))
+	b.WriteString("SampleCache:\n  KeptSize: 200\n  DroppedSize: 2000\n") // keeps the worker's decision record small
 	return []byte(b.String())
 }
 
@@ -266,7 +267,9 @@ func genFieldList(r *kit.Rng, kind string, ids []string) []string {
 }
 
 func genCfg(r *kit.Rng) caseCfg {
-	c := caseCfg{prefix: pick(r, prefixPool), validate: true}
+	// full validation re-parses refinery's configuration metadata (~20 ms), so only a part of the cases
+	// goes through it; the others are loaded by the same loader with validation switched off
+	c := caseCfg{prefix: pick(r, prefixPool), validate: r.Chance(20)}
 	switch r.Pick(7, 2, 1) {
 	case 0:
 		c.tids, c.pids = []string{"trace.trace_id", "traceId"}, []string{"trace.parent_id", "parentId"}
@@ -542,7 +545,11 @@ func (comp) Gen(r *kit.Rng, maxLen int, tier string) kit.Case {
 			ops = append(ops, fmt.Sprintf("span %s %s %s %s %s", path, kit.Enc(key), envTok, kit.Enc(ds), encPayload(pl)))
 		default:
 			if len(openOrder) == 0 {
-				ops = append(ops, "decide t0")
+				if r.Chance(10) {
+					ops = append(ops, "decide t0") // no such trace
+				} else {
+					ops = append(ops, "classify "+kit.Enc(genKey(r)))
+				}
 				continue
 			}
 			j := r.Intn(len(openOrder))
@@ -618,8 +625,11 @@ func (comp) NewCase(h []string) kit.Runner {
 }
 
 func (r *runner) Close() {
+	if r.worker != nil {
+		r.worker.Stop() // the decision record's maintenance goroutine
+	}
 	if r.sf != nil {
-		r.sf.Stop()
+		r.sf.Stop() // dynsampler goroutines
 	}
 }
 
